@@ -19,6 +19,9 @@ use arrayvec::ArrayVec;
 use crossbeam_channel::Sender;
 use hashbrown::HashMap;
 use hdrhistogram::Histogram;
+#[cfg(feature = "verif")]
+use crate::verif_sync::{RwLock, RwLockUpgradableReadGuard};
+#[cfg(not(feature = "verif"))]
 use parking_lot::RwLockUpgradableReadGuard;
 use rand::prelude::SmallRng;
 use rand::{Rng, RngExt};
@@ -29,6 +32,7 @@ use crate::config::Config;
 const SMALL_PEER_MAP_CAPACITY: usize = 2;
 
 use aquatic_udp_protocol::InfoHash;
+#[cfg(not(feature = "verif"))]
 use parking_lot::RwLock;
 
 #[derive(Clone)]
